@@ -323,6 +323,9 @@ func runC03(r *Report) {
 	checkZeroExpiryGuard(r, "R-C03-6", secPkgC03, "BanRecord", "ExpiresAt")
 	checkZeroExpiryGuard(r, "R-C03-6", secPkgC03, "IPRecord", "ExpiresAt")
 
+	// the persisted allow/deny lists: save, load and remove agree, per list type, on the storage keys
+	checkCaseConstantAgreement(r, "R-C03-6", secPkgC03, "IPType", 3)
+
 	// ---- R-C03-5 extractIP uses the typed branch ---------------------------------
 	if ex := r.need("R-C03-5", authPkg, "extractIP"); ex != nil {
 		typed := map[string]bool{}
